@@ -196,6 +196,15 @@ def fam_comp(full):
     yield "x = [(w := v) for v in t('i', [1, 2])]\ny = w"
     yield "x = [q for q in t('i', [1, 2])] + [q for q in t('j', [3])]"
     yield "x = sum([v for v in t('i', [1, 2])])"
+    # the outermost iterable is evaluated in the enclosing scope, where the loop variable's name may mean something else
+    for open_, close in (("[", "]"), ("{", "}")):
+        yield f"v = [3, 1, 2]\nx = {open_}v * 2 for v in v{close}\ny = v"
+        yield f"v = 3\nx = {open_}v for v in range(v){close}\ny = v"
+        yield f"v = [[1, 2], [3]]\nx = {open_}w for v in v for w in v{close}\ny = v"
+        yield f"v = [1, 2]\nx = {open_}(v, w) for w in v for v in t('j', 'ab'){close}\ny = v"
+    yield "v = [3, 1]\nx = {v: v + 1 for v in v}\ny = v"
+    yield "def f():\n    v = [3, 1, 2]\n    return [v * 2 for v in v], v\nx = f()"
+    yield "x = [v for v in v]" 
     yield "x = list(v for v in [1, 2])" if False else "x = [v for v in [1, 2]][t('i', 0)]"
 
 
